@@ -4,6 +4,7 @@ from .model import *
 from .facts import Site, op_place, Call, proj_field_name
 from .bits import sym, show, cmp_tests
 from . import c13
+from .fields import fields
 
 EXPLANATION = ("decides necessary structural conditions only: `a worker handles one job at a time` as an induction over the only writer of the in-flight "
                "map (insertions happen only in dispatch_job, and every call site of dispatch_job is dominated by an emptiness witness: is_empty() true edge, "
@@ -49,7 +50,7 @@ def r1(run, db):
     ins = []
     for f in db.crate_fns("ractor"):
         for c in f.calls():
-            if c.matches(r"HashMap::<K, V, S, A>::(insert|entry|extend|get_mut)$|Extend") and "curr_jobs" in field_of(f, c.args[0]):
+            if c.matches(r"HashMap::<K, V, S, A>::(insert|entry|extend|get_mut)$|Extend") and fields(db).wp_inflight in field_of(f, c.args[0]):
                 ins.append(c)
     run.check(len(ins) == 1 and ins[0].fn.id == dj.id, "single-inflight-writer", "the in-flight map gains entries only in dispatch_job", "in-flight map written at %s" % [c.fn.id for c in ins])
     calls = db.calls_of(dj.id)
@@ -59,13 +60,13 @@ def r1(run, db):
         run.saw(1, f)
         wit = None
         for x in f.calls():
-            if x.matches(r"HashMap::<K, V, S, A>::is_empty$") and "curr_jobs" in field_of(f, x.args[0]):
+            if x.matches(r"HashMap::<K, V, S, A>::is_empty$") and fields(db).wp_inflight in field_of(f, x.args[0]):
                 te = true_edge(f, x)
                 if te and f.edge_dominates(te, c.site):
                     wit = "true edge of curr_jobs.is_empty()"
-            if x.matches(r"mem::take$") and "curr_jobs" in field_of(f, x.args[0]) and f.dominates(x.site, c.site):
+            if x.matches(r"mem::take$") and fields(db).wp_inflight in field_of(f, x.args[0]) and f.dominates(x.site, c.site):
                 wit = "mem::take(&mut curr_jobs)"
-            if x.matches(r"HashMap::<K, V, S, A>::remove$") and "curr_jobs" in field_of(f, x.args[0]):
+            if x.matches(r"HashMap::<K, V, S, A>::remove$") and fields(db).wp_inflight in field_of(f, x.args[0]):
                 se = nested_variant_edge(f, x, ["Some"])
                 iss = [y for y in f.calls() if y.matches(r"Option::<T>::is_some$") and any(r["k"] == "call" and r["call"].bb == x.bb for r in f.origins(y.args[0]))]
                 if (se and f.edge_dominates(se, c.site)) or any(true_edge(f, y) and f.edge_dominates(true_edge(f, y), c.site) for y in iss):
@@ -187,9 +188,9 @@ def r4(run, db):
     for f in db.crate_fns("ractor"):
         for site, s in f.stmts():
             if s["k"] == "assign" and s["rv"]["k"] == "ref" and s["rv"].get("mut"):
-                if "pending_key_counts" in [proj_field_name(e) for e in s["rv"]["p"][1] if e.startswith("f:")]:
+                if fields(db).wp_pending in [proj_field_name(e) for e in s["rv"]["p"][1] if e.startswith("f:")]:
                     writers.add(f.id)
-            if s["k"] == "assign" and "pending_key_counts" in [proj_field_name(e) for e in s["lhs"][1] if e.startswith("f:")]:
+            if s["k"] == "assign" and fields(db).wp_pending in [proj_field_name(e) for e in s["lhs"][1] if e.startswith("f:")]:
                 writers.add(f.id)
     run.check(writers <= {tr.id, un.id}, "pending-writers", "the pending-key table is mutated only by track/untrack", "pending-key table mutated by %s" % sorted(writers - {tr.id, un.id}))
     run.anchor("pending-key writers", len(writers), 2)
@@ -256,7 +257,7 @@ def r7(run, db):
     run.anchor("RoundRobin choose", len(rr), 1)
     for f in rr:
         run.saw(len(f.blocks), f)
-        stores = [(site, s) for site, s in f.stmts() if s["k"] == "assign" and "last_worker" in [proj_field_name(e) for e in s["lhs"][1] if e.startswith("f:")]]
+        stores = [(site, s) for site, s in f.stmts() if s["k"] == "assign" and fields(db).rr_cursor in [proj_field_name(e) for e in s["lhs"][1] if e.startswith("f:")]]
         run.check(len(stores) == 1, "rr|cursor-store", "one store to the cursor", "%d cursor stores" % len(stores), f.where())
         if stores:
             site, s = stores[0]
